@@ -113,8 +113,10 @@ def body(N, load, colname, fdt, dep, lightcone):
     box = Sym(c.input('BoxSize', z3.RealSort()))
     velz = Sym(c.input('VelZSpace_to_kms', z3.RealSort()))
     ppd = Sym(c.input('ppd', z3.IntSort()))
-    c.assume(z3.And(box.e > 0, ppd.e >= 1))
-    header = {'BoxSize': box, 'VelZSpace_to_kms': velz, 'ppd': ppd}
+    # headers store ppd = NP**(1/3) as a float that may sit a rounding error below or above the integer
+    ppd_hdr = Sym(c.input('ppd_header', z3.RealSort()))
+    c.assume(z3.And(box.e > 0, ppd.e >= 1, ppd_hdr.e - z3.ToReal(ppd.e) <= z3.RealVal('1/1000000'), z3.ToReal(ppd.e) - ppd_hdr.e <= z3.RealVal('1/1000000')))
+    header = {'BoxSize': box, 'VelZSpace_to_kms': velz, 'ppd': ppd_hdr}
     if lightcone:
         header.update(OutputType='LightCone', SimSet='AbacusSummit', ParticleSubsampleA=0.03, ParticleSubsampleB=0.07)
     cols = {'rvint': common.sym_array('rvint', (N, 3), 'i4', bv=True), 'packedpid': common.sym_array('packedpid', (N,), 'u8', bv=True),
@@ -306,12 +308,14 @@ m = {m!r}
 case = {i!r}
 N = case['N']
 box, velz, ppd = float(F(m.get('BoxSize', 1))), float(F(m.get('VelZSpace_to_kms', 1))), float(m.get('ppd', 1))
+ppd_hdr = float(F(m.get('ppd_header', ppd)))
+if ppd_hdr != ppd: ppd_hdr = ppd + (1e-9 * ppd if ppd_hdr > ppd else -1e-9 * ppd)
 data = {{}}
 if m.get('has[rvint]', False): data['rvint'] = np.array([[m.get(f'rvint[{{i}},{{j}}]', 0) for j in range(3)] for i in range(N)], dtype=np.uint32).astype(np.int32).reshape(N, 3)
 if m.get('has[pack9]', False): data['pack9'] = np.array([[m.get(f'pack9[{{i}},{{k}}]', 0xFF if (i == 0 and k == 0) else 0) for k in range(9)] for i in range(N + 1 if N else 0)], dtype=np.uint8).reshape(-1, 9)
 if m.get('has[packedpid]', False): data['packedpid'] = np.array([m.get(f'packedpid[{{i}}]', 0) for i in range(N)], dtype=np.uint64)
 if m.get('has[pid]', False): data['pid'] = np.array([m.get(f'pidcol[{{i}}]', 0) for i in range(N)], dtype=np.uint64)
-hdr = {{'BoxSize': box, 'VelZSpace_to_kms': velz, 'ppd': ppd}}
+hdr = {{'BoxSize': box, 'VelZSpace_to_kms': velz, 'ppd': ppd_hdr}}
 if case['lightcone']: hdr.update(OutputType='LightCone', SimSet='AbacusSummit', ParticleSubsampleA=0.03, ParticleSubsampleB=0.07)
 fd = np.dtype(case['float_dtype']).type
 kw = {{}}
